@@ -45,6 +45,9 @@ type payload struct {
 	// F10 to the self-containing values it builds (cyclic_test.go); it runs
 	// without the cycle guard and its values are never traversed host-side
 	AllowCycles bool `json:"allow_cycles,omitempty"`
+	// PreCancel: before the real run, RunContext is called once with a context
+	// that is already cancelled (1) or already past its deadline (2)
+	PreCancel int `json:"pre_cancel,omitempty"`
 }
 
 const instrBudget = 3000000
@@ -118,6 +121,33 @@ func runCase(p payload) (o outcome) {
 			o.discard = "does not compile"
 		}
 		return
+	}
+	if p.PreCancel > 0 {
+		// a run that is over before it starts must leave the object usable too
+		ctx, cancel := context.WithCancel(context.Background())
+		if p.PreCancel == 2 {
+			cancel()
+			ctx, cancel = context.WithDeadline(context.Background(), time.Now().Add(-time.Second))
+		}
+		cancel()
+		var pan0 interface{}
+		func() {
+			defer func() { pan0 = recover() }()
+			_ = c.RunContext(ctx)
+		}()
+		if pan0 != nil {
+			o.fail = fmt.Sprintf("RunContext with an already-cancelled context panicked: %v", pan0)
+			return
+		}
+		free := make(chan struct{})
+		go func() { c.IsDefined("x"); _ = c.Get("x"); close(free) }()
+		select {
+		case <-free:
+		case <-time.After(60 * time.Second):
+			o.fail = "after RunContext with an already-cancelled context, IsDefined/Get on the same object do not return (60 s): the object is unusable"
+			return
+		}
+		o.classes = append(o.classes, "pre-cancelled-run-first")
 	}
 	// 1+2: the call returns nil or an error, no panic reaches the caller
 	var runErr error
@@ -389,6 +419,9 @@ func TestGeneratedHostile(t *testing.T) {
 			mods[k] = lang.Render(b)
 		}
 		pl := payload{Kind: "generated", Source: src, Modules: mods, Inputs: inputs}
+		if rapid.IntRange(0, 7).Draw(t, "preCancel") == 0 {
+			pl.PreCancel = rapid.IntRange(1, 2).Draw(t, "preCancelKind")
+		}
 		if rapid.IntRange(0, 5).Draw(t, "limitAllocs") == 0 {
 			pl.MaxAllocs = int64(rapid.IntRange(1, 200).Draw(t, "maxAllocs"))
 		}
@@ -504,6 +537,9 @@ func TestHostileTemplates(t *testing.T) {
 	rapid.Check(t, func(t *rapid.T) {
 		kind, src := hostileSource(t)
 		pl := payload{Kind: kind, Source: src}
+		if rapid.IntRange(0, 7).Draw(t, "preCancel") == 0 {
+			pl.PreCancel = rapid.IntRange(1, 2).Draw(t, "preCancelKind")
+		}
 		if rapid.IntRange(0, 7).Draw(t, "limitAllocs") == 0 {
 			pl.MaxAllocs = int64(rapid.IntRange(1, 50).Draw(t, "maxAllocs"))
 		}
